@@ -75,7 +75,7 @@ Ltac release_tail k :=
     | let Hw := fresh "Hw" in
       intros ? ? ? ? ? ? Hw; cbn; rewrite Hw; cbn;
       match goal with |- context [h_futs ?kk ?ff] => destruct (h_futs kk ff) end; cbn;
-      eexists _, _; (split; [first [left; reflexivity | right; reflexivity] | reflexivity])
+      eexists _, _; (split; cycle 1; [reflexivity | first [left; reflexivity | right; reflexivity]])
     | reflexivity
     | rewrite Hex; unfold rel_woke, rel_heap; cbn [qget];
       destruct (handoff (h_waiters k) (h_futs k)) as [[[hw|] hws] hfu]; cbn [fst snd];
